@@ -114,6 +114,8 @@ class Module:
         self.path = path
         self.text = text
         self.tree = ast.parse(text, filename=path)
+        from . import canon
+        self.canon_stats = canon.canonicalise(name, self.tree)
         self.imports: dict[str, str] = {}
         self.defs: dict[str, ast.AST] = {}      # top-level name -> def/class/assigned value
         self.assigns: dict[str, ast.AST] = {}   # top-level simple assignments name -> value expr
